@@ -82,7 +82,11 @@ func (env *SpecEnv) lookup(name string) *Val {
 		}
 		return tv(h, nil)
 	}
+	if name == "$i" || name == "$idx" || name == "$j" {
+		panic("spec: " + name + " is not defined at this point")
+	}
 	if strings.HasPrefix(name, "$") {
+		// contract witness without a `ret N let`: default witness 0
 		return &Val{T: intLit(0), Lit: true, Mag: -1}
 	}
 	return nil
@@ -365,8 +369,19 @@ func (w *World) trSpecCall(e *SExpr, env *SpecEnv) *Val {
 		if env.old == nil {
 			return w.trSpec(args[0], env)
 		}
-		if len(env.bound) > 0 {
-			return w.trSpec(args[0], env.old.with(env.bound))
+		// quantifier-bound variables and the `$`-names of the current point ($i, $idx, $j, ret-lets) keep their
+		// meaning inside old(..): only the program state is the entry state.
+		carry := map[string]*Val{}
+		for k, v := range env.names {
+			if strings.HasPrefix(k, "$") && k != "$allocNow" {
+				carry[k] = v
+			}
+		}
+		for k, v := range env.bound {
+			carry[k] = v
+		}
+		if len(carry) > 0 {
+			return w.trSpec(args[0], env.old.with(carry))
 		}
 		return w.trSpec(args[0], env.old)
 	case "ite":
